@@ -55,7 +55,7 @@ def _ctxs():
 def _classes():
     return [
         ("contains", rx.kw("contains"), "contains", "modspec", "", "contains"),
-        ("access-bare", rx.anyof_kw("public", "private"), "public|private|protected", "modspec", "", "private"),
+        ("access-bare", rx.anyof_kw("public", "private"), "private|protected|public", "modspec", "", "private"),
         ("module-stmt", G.MODULE_STMT, "MODULE_RE", "top", "end module\n", "module mm"),
         ("submodule-stmt", G.SUBMODULE_STMT, "SUBMODULE_RE", "top", "end submodule\n", "submodule (a) bb"),
         ("program-stmt", G.PROGRAM_STMT, "PROGRAM_RE", "top", "end program\n", "program pp"),
